@@ -115,10 +115,14 @@ def gen_weighted_case(rng: random.Random, idx: int, long_n: int = 0):
     p_init = 0.0 if long_n else rng.choice([0.0, 0.0, 0.05, 0.15])
     p_bad = 0.002 if long_n else rng.choice([0.0, 0.05, 0.2])
     p_qty = 0.0 if long_n else rng.choice([0.0, 0.0, 0.0, 0.1, 0.4])
+    p_qw = 0.002 if long_n else rng.choice([0.0, 0.1, 0.3])
+    p_foreign = 0.002 if long_n else rng.choice([0.0, 0.05, 0.2])
     ops = []
+    seen = False
     for w, v in zip(wts, vals):
         if rng.random() < p_init:
             ops.append({"op": "init"})
+            seen = False
         if rng.random() < p_bad:
             if rng.random() < 0.5:
                 bw, bv = BAD_W[rng.randrange(len(BAD_W))], v
@@ -128,6 +132,15 @@ def gen_weighted_case(rng: random.Random, idx: int, long_n: int = 0):
                 bw, bv = BAD_W[rng.randrange(len(BAD_W))], BAD[rng.randrange(len(BAD))]
             ops.append({"op": "reg" if cls == "WeightedTally" or rng.random() < 0.5 else "notify",
                         "w": L.enc(bw), "v": L.enc(bv)})
+        if seen and rng.random() < p_qw:
+            # a Quantity WEIGHT in register(): no plain number (only notify converts with float()); it must be refused
+            # and -- coming after ordinary observations -- leave n, min, max and every statistic as they were
+            qu = rng.choice(["s", "min", "h"])
+            ops.append({"op": "reg", "w": L.qenc("Duration", rng.choice([2.0, 0.5, 0.0, abs(float(w))]), qu), "v": L.enc(rng.choice([v, 7, -3.5]))})
+        if cls != "WeightedTally" and rng.random() < p_foreign:
+            # a valid payload under an event type that merely has the NAME "WEIGHT_DATA_EVENT" (defined in another class)
+            ops.append({"op": "foreign", "w": L.enc(rng.choice([1.0, 2, 0.5])), "v": L.enc(rng.choice([v, 4.0]))})
+        seen = True
         how = "reg" if cls == "WeightedTally" or rng.random() < 0.7 else "notify"
         ev = L.enc(v)
         if rng.random() < p_qty and not isinstance(v, bool):      # a Quantity value counts with its si-value
@@ -204,6 +217,8 @@ def gen_ts_case(rng: random.Random, idx: int, long_n: int = 0):
     p_back = 0.0 if long_n else rng.choice([0.0, 0.05, 0.15])
     p_end = 0.0 if long_n else rng.choice([0.0, 0.03, 0.1])
     p_qty = 0.0 if long_n else rng.choice([0.0, 0.0, 0.0, 0.1, 0.4])
+    p_qw = 0.002 if long_n else rng.choice([0.0, 0.1, 0.3])
+    p_foreign = 0.002 if long_n else rng.choice([0.0, 0.05, 0.2])
     # int timestamps beyond 2^53 go through register only: notify() converts with float(event.timestamp) by design
     exact_ints = tf in ("bigint", "mixed53")
 
@@ -233,6 +248,17 @@ def gen_ts_case(rng: random.Random, idx: int, long_n: int = 0):
             ops.append({"op": "end", "t": L.enc(te)})
             if rng.random() < 0.3:
                 ops.append({"op": "end", "t": L.enc(te + 1)})
+        if last is not None and not exact_ints and rng.random() < p_qw and abs(float(last)) < 1e15:
+            # a Quantity TIMESTAMP in register() / end_observations(): no plain number (only notify converts with
+            # float()); it must be refused and leave everything as it was
+            qt = L.qenc("Duration", float(last) + rng.choice([1.0, 0.5, 0.0]), "s")
+            if rng.random() < 0.75:
+                ops.append({"op": "reg", "t": qt, "v": L.enc(rng.choice([v, 7, -3.5]))})
+            else:
+                ops.append({"op": "end", "t": qt})
+        if cls != "TimestampWeightedTally" and not exact_ints and rng.random() < p_foreign:
+            # a valid payload under an event type that merely has the NAME "TIMESTAMP_DATA_EVENT"
+            ops.append({"op": "foreign", "t": L.enc(t), "v": L.enc(rng.choice([v, 4.0]))})
         how = "reg" if cls == "TimestampWeightedTally" or exact_ints or rng.random() < 0.7 else "notify"
         if how == "notify" and rng.random() < p_qty and isinstance(t, float) and abs(t) < 1e15:
             ops.append({"op": how, "t": L.qenc("Duration", t, "s"), "v": val(v)})      # a Duration clock
@@ -334,13 +360,17 @@ def run_case(case):
                 t.end_observations(L.dec_impl(op["t"]))
             elif ts:
                 tt, v = L.dec_impl(op["t"]), L.dec_impl(op["v"])
-                if op["op"] == "notify":
+                if op["op"] == "foreign":
+                    t.notify(TimedEvent(tt, L.foreign_event_type("TIMESTAMP_DATA_EVENT"), v))
+                elif op["op"] == "notify":
                     t.notify(TimedEvent(tt, StatEvents.TIMESTAMP_DATA_EVENT, v))
                 else:
                     t.register(tt, v)
             else:
                 w, v = L.dec_impl(op["w"]), L.dec_impl(op["v"])
-                if op["op"] == "notify":
+                if op["op"] == "foreign":
+                    t.notify(Event(L.foreign_event_type("WEIGHT_DATA_EVENT"), (w, v)))
+                elif op["op"] == "notify":
                     t.notify(Event(StatEvents.WEIGHT_DATA_EVENT, (w, v)))
                 else:
                     t.register(w, v)
@@ -376,6 +406,10 @@ def expected_kind_weighted(op):
     """documented outcome of WeightedTally.register / EventBasedWeightedTally.notify"""
     if op["op"] == "init":
         return "ok"
+    if op["op"] == "foreign":          # notify() accepts StatEvents.WEIGHT_DATA_EVENT only, whatever another type is called
+        return "ValueError"
+    if op["op"] == "reg" and "q" in op["w"]:
+        return "rejected"              # a Quantity weight is no plain number: refused (with whatever exception)
     w, v = L.dec(op["w"]), L.dec(op["v"])
     if _arg_kind(w) or _arg_kind(v):
         return "TypeError"
@@ -518,6 +552,15 @@ def oracle_weighted(case, steps):
         ek = expected_kind_weighted(op)
         sub = {"none": "", "all": " with subscribers attached", "one": " with one subscriber attached"}[case["subs"]]
         call = "initialize()" if op["op"] == "init" else f"{op['op']}({L.show(op['w'])}, {L.show(op['v'])})"
+        if op["op"] == "foreign":
+            call = f"notify(Event(<EventType named 'WEIGHT_DATA_EVENT' defined in class Sensor>, ({L.show(op['w'])}, {L.show(op['v'])})))"
+            if rec["kind"] != ek:
+                return (f"{who}-foreign-event-type-not-rejected", f"{case['cls']}.{call}: a DIFFERENT EventType that merely has the "
+                        f"expected name ended with {rec['kind']}, expected ValueError", i), False
+        if ek == "rejected":
+            if rec["kind"] == "ok":
+                return (f"{who}-quantity-weight-not-rejected", f"{case['cls']}.{call} was accepted", i), False
+            ek = rec["kind"]
         if rec["kind"] != ek:
             if ek == "ok":
                 return (f"{who}-register-raises-{rec['kind']}",
@@ -568,6 +611,10 @@ def oracle_weighted(case, steps):
 def expected_kind_ts(op, last_ts):
     if op["op"] == "init":
         return "ok"
+    if op["op"] == "foreign":          # notify() accepts StatEvents.TIMESTAMP_DATA_EVENT only
+        return "ValueError"
+    if op["op"] in ("reg", "end") and "q" in op["t"]:
+        return "rejected"              # a Quantity timestamp is no plain number: refused (with whatever exception)
     t = L.dec(op["t"])
     v = L.dec(op["v"]) if op["op"] != "end" else 0.0
     if op["op"] == "notify":
@@ -598,6 +645,15 @@ def oracle_ts(case, steps):
         sub = {"none": "", "all": " with subscribers attached", "one": " with one subscriber attached"}[case["subs"]]
         call = "initialize()" if op["op"] == "init" else (
             f"end_observations({L.show(op['t'])})" if op["op"] == "end" else f"{op['op']}({L.show(op['t'])}, {L.show(op['v'])})")
+        if op["op"] == "foreign":
+            call = f"notify(TimedEvent({L.show(op['t'])}, <EventType named 'TIMESTAMP_DATA_EVENT' defined in class Sensor>, {L.show(op['v'])}))"
+            if rec["kind"] != ek:
+                return (f"{who}-foreign-event-type-not-rejected", f"{case['cls']}.{call}: a DIFFERENT EventType that merely has the "
+                        f"expected name ended with {rec['kind']}, expected ValueError", i), False
+        if ek == "rejected":
+            if rec["kind"] == "ok":
+                return (f"{who}-quantity-timestamp-not-rejected", f"{case['cls']}.{call} was accepted", i), False
+            ek = rec["kind"]
         if rec["kind"] != ek:
             if ek == "ok":
                 return (f"{who}-register-raises-{rec['kind']}",
@@ -743,6 +799,17 @@ def c_case(case, steps):
     for op, rec in zip(case["ops"], steps):
         if op["op"] == "init":
             cop = "(@TsInit NumF)" if ts else "(@WInit NumF)"
+        elif op["op"] == "foreign":
+            # notify's own event-type test is not part of the models: a notification it refuses enters as a refused
+            # call of the same kind (ValueError); if the implementation accepted it, the step disagrees
+            cop = f"(@{'TsReg' if ts else 'WReg'} NumF ONaN (ONum 0%float))"
+        elif "q" in op.get("t" if ts else "w", {}) and op["op"] in ("reg", "end"):
+            # a Quantity weight / timestamp is outside the models' universe: it enters as a refused argument of the
+            # observed kind; that nothing changed is what the snapshots (and the oracle) then check
+            ca = {"TypeError": "ONotNumber", "ValueError": "ONaN"}.get(rec["kind"])
+            if ca is None:
+                return None
+            cop = f"(@TsEnd NumF {ca})" if op["op"] == "end" else f"(@{'TsReg' if ts else 'WReg'} NumF {ca} {L.carg(L.dec(op['v']))})"
         elif op["op"] == "end":
             cop = f"(@TsEnd NumF {L.carg(tm(L.dec(op['t'])))})"
         else:
@@ -816,6 +883,9 @@ def describe_ops(case):
     for op in case["ops"]:
         if op["op"] == "init":
             out.append("initialize()")
+        elif op["op"] == "foreign":
+            out.append(f"notify(<event of a type named like the expected one, defined in class Sensor>, "
+                       + (f"({L.show(op['w'])}, {L.show(op['v'])}))" if case["kind"] == "weighted" else f"timestamp={L.show(op['t'])}, value={L.show(op['v'])})"))
         elif op["op"] == "end":
             out.append(f"end_observations({L.show(op['t'])})")
         elif case["kind"] == "weighted":
@@ -885,7 +955,11 @@ def main(tier: str) -> int:
             nontrivial.add(json.dumps([case["cls"], case["subs"], case["ops"]], sort_keys=True))
         prev_t, closed = None, False
         for op, rec in zip(case["ops"], steps):
-            ops_hist[{"init": "initialize", "end": "end_observations", "notify": "notify", "reg": "register"}[op["op"]]] += 1
+            ops_hist[{"init": "initialize", "end": "end_observations", "notify": "notify", "reg": "register", "foreign": "notify"}[op["op"]]] += 1
+            if op["op"] == "foreign":
+                ops_hist["notify_with_same_named_foreign_event_type"] = ops_hist.get("notify_with_same_named_foreign_event_type", 0) + 1
+            if op["op"] in ("reg", "end") and "q" in op.get("w", op.get("t", {})):
+                ops_hist["quantity_weight_or_timestamp_in_register"] = ops_hist.get("quantity_weight_or_timestamp_in_register", 0) + 1
             if rec["kind"] != "ok":
                 ops_hist["rejected"] += 1
                 kinds_hist[rec["kind"]] = kinds_hist.get(rec["kind"], 0) + 1
